@@ -746,7 +746,7 @@ def check_C05(tier, seed, extra_programs=None):
             run.exhaustive = False
         if nv == 3:
             # conditions on three independent variables combined by and_/or_: partial bindings in the operator caches
-            extra = run.export("GenQuery", "G1x-bfs", "PROG", constants=dict(G="G1x", NV=3, LeafLimit=6, MaxLeaves=3, MaxNot=1,
+            extra = run.export("GenQuery", "G1x-bfs", "PROG", constants=dict(G="G1x", NV=3, LeafLimit=6, MaxLeaves=3, MaxNot=0,
                                                                              NeedNot=False), invariants=("Export", "WellFormed"))
             extra = [p for p in extra if len(normalize(dict(p, vars=[]), 3)["_used"]) == 3]
             progs += rng.sample(extra, min(len(extra), 600 if quick else 20000))
@@ -779,6 +779,16 @@ def check_C05(tier, seed, extra_programs=None):
             qc.add(W, [q, copy.deepcopy(q)], [{"op": "cfg", "caching": True}, {"op": "rule", "qi": 1}, {"op": "rule", "qi": 1},
                                               {"op": "cfg", "caching": False}, {"op": "rule", "qi": 2}, {"op": "rule", "qi": 1},
                                               {"op": "cfg", "caching": True}, {"op": "rule", "qi": 2}])
+    # histories that interleave configuration switches with full, partial and aborted evaluations of two query objects
+    behs = run.export("EvalSession", "cfg-walks", "BEH", constants=dict(NQ=2, MaxLen=6, WithCfg=True), invariants=("Export",),
+                      constraint="Bound", simulate=5000 if quick else 60000, depth=7, count=False)
+    behs = [b for b in behs if any(o["op"] == "cfg" for o in b)]
+    pool = {nv: _programs(run, nv, True, sim_quick=300, tag="-h") for nv in (1, 2)}
+    for b in behs:
+        nv = rng.choice((1, 2))
+        W, doms = _world_and_doms(rng, nv, quick)
+        qs = [mk_query(rng.choice(pool[nv]), doms, declare="random"), mk_query(rng.choice(pool[nv]), doms)]
+        qc.add(W, qs, _session_events(b, 2), share_vars=rng.random() < 0.5)
     for (W, q) in (extra_programs or []):
         qc.add(W, [q, copy.deepcopy(q)], _c05_events())
 
